@@ -236,7 +236,8 @@ def _lookup_with(templates, backed, tag):
 
 
 def run_nsprec(c, backed):
-    imp = {"none": "", "p": ' import="p"', "pq": ' import="p, q"', "star": ' import="*"'}[c["imp"]]
+    sep = [", ", ",", " , "][(len(c["I"]) + 2 * len(c["C"]) + len(c["F"])) % 3]      # spelling of the import list (cosmetic)
+    imp = {"none": "", "p": ' import="p"', "pq": ' import="p%sq"' % sep, "star": ' import="*"'}[c["imp"]]
     m = GUARD + _ns_tag(c["kind"], c["I"], c["F"], imp)
     for x in ("p", "q"):
         m += "${g(context, 'call|ns.%s', 'ERR|%s', lambda: ns.%s())}\n" % (x, x, x)
@@ -257,7 +258,12 @@ def run_inh(c, backed):
             s += _ns_tag(c["kind"], {"p"} if c["kind"] == "inline" else set(), {"p"}, ' inheritable="True"')
         s += "{open|%d}\n" % i
         if i >= c["d"]:
-            s += "${g(context, 'call|self.ns.p|%d', 'ERR|p', lambda: self.ns.p())}\n" % i
+            call = "${g(context, 'call|self.ns.p|%d', 'ERR|p', lambda: self.ns.p())}" % i
+            if c.get("viadef"):      # the namespace of an ancestor used from inside a def of the derived template
+                s = s.replace("{open|%d}\n" % i, '<%%def name="u%d()">%s</%%def>\n{open|%d}\n' % (i, call, i))
+                s += "${u%d()}\n" % i
+            else:
+                s += call + "\n"
         if i < c["N"]:
             s += "${next.body()}\n"
         t["/t%d.html" % i] = s
@@ -281,6 +287,10 @@ def run_include(c, backed):
     if c["tgt"] == "solo":
         t["/t.html"] = GUARD + '<%page args="a=0, b=0"/>\n' + who("T") + "{open|T}{arg|a|${a}}{arg|b|${b}}\n" \
             + calls(["self", "local", "parent", "next"]) + "{close|T}\n"
+    elif c["tgt"] == "hasns":
+        t["/t.html"] = GUARD + '<%namespace name="tn" file="o.html"/>\n' + who("T") + "{open|T}\n" \
+            + calls(["tn", "self", "local", "parent", "next"]) + "{close|T}\n"
+        t["/o.html"] = who("O")
     else:
         t["/t.html"] = GUARD + '<%inherit file="/tb.html"/>\n' + who("T") + "{open|T}\n" + calls(["self", "local", "parent", "next"]) + "{close|T}\n"
         t["/tb.html"] = GUARD + who("TB") + "{open|TB}\n" + calls(["self", "next", "parent"]) + "${next.body()}\n{close|TB}\n"
@@ -362,6 +372,46 @@ def run_multins(c, backed):
     return out
 
 
+def _import_module(k):
+    name = "c07imp%d_%d" % (k, os.getpid())
+    p = os.path.join(_modules_dir(), name + ".py")
+    if not os.path.exists(p):
+        with open(p, "w") as f:      # d<k> writes through the context, e<k> ignores it and returns the text
+            f.write("def d%d(context):\n    context.write('{P%d|d%d}')\n    return ''\n\n" % (k, k, k))
+            f.write("def e%d(context):\n    return '{P%d|e%d}'\n" % (k, k, k))
+        import importlib
+        importlib.invalidate_caches()
+    return name
+
+
+def run_imports(c, backed):
+    """1..3 <%namespace ... import=...> tags, named or anonymous, in a given source layout."""
+    t = {}
+    tags = []
+    names = []
+    for k, tag in enumerate(c["tags"], 1):
+        names += ["d%d" % k, "e%d" % k]
+        attrs = ("" if tag["anon"] else 'name="n%d" ' % k) + ('import="d%d"' % k if tag["imp"] == "one" else 'import="*"')
+        defs = "".join('<%%def name="%s%d()">{P%d|%s%d}</%%def>' % (z, k, k, z, k) for z in "de")
+        if tag["kind"] == "file":
+            t["/o%d.html" % k] = defs + "\n"
+            tags.append('<%%namespace %s file="/o%d.html"/>' % (attrs, k))
+        elif tag["kind"] == "module":
+            tags.append('<%%namespace %s module="%s"/>' % (attrs, _import_module(k)))
+        else:
+            tags.append("<%%namespace %s>%s</%%namespace>" % (attrs, defs))
+    m = GUARD + {"lines": "\n", "oneline": "", "text": " x "}[c["layout"]].join(tags) + "\n"
+    for k, tag in enumerate(c["tags"], 1):
+        for z in "de":
+            m += "${g(context, 'call|%s%d', 'ERR|%s%d', lambda: %s%d())}\n" % (z, k, z, k, z, k)
+        if not tag["anon"]:
+            m += "${g(context, 'call|n%d.e%d', 'ERR|e%d', lambda: n%d.e%d())}\n" % (k, k, k, k, k)
+    t["/m.html"] = m
+    kw = {x: (lambda x=x: "{C|%s}" % x) for x in names} if c["ctx"] else {}
+    lk = _lookup_with(t, backed, "imports")
+    return _observe(lambda: lk.get_template("/m.html").render(**kw))
+
+
 def run_incpos(c, backed):
     """The <%include> at different places of the includer; values for T's page args a, b from different sources."""
     sa, sb = set(c["sa"]), set(c["sb"])
@@ -418,6 +468,8 @@ def _run_batch(args):
                 obs = run_multins(c, backed)
             elif c["fam"] == "incpos":
                 obs = run_incpos(c, backed)
+            elif c["fam"] == "imports":
+                obs = run_imports(c, backed)
             else:
                 obs = run_include(c, backed)
         except MachineryError:
@@ -499,7 +551,7 @@ def check(run):
     if res.violated:
         run.spec_violation(res)
         return {"rule": "TLC found the design model violating %s" % res.violated, "exhaustive": True}
-    for a in ("Resolve", "PopulateImports", "Calls", "GenNamespaces", "Bodies", "Include", "IncludeAt", "MakeNamespace", "Probe", "Finish"):
+    for a in ("Resolve", "PopulateImports", "Calls", "GenNamespaces", "Bodies", "Include", "IncludeAt", "PopulateTag", "TagCalls", "MakeNamespace", "Probe", "Finish"):
         if not res.coverage.get(a, [0, 0])[1]:
             raise MachineryError("vacuous model checking: action %s never taken (%s)" % (a, res.coverage))
     run.extra["action_coverage"] = {a: v[1] for a, v in res.coverage.items() if a[0].isupper()}
